@@ -84,8 +84,11 @@ func init() {
 			return Val{T: App(SBool, ">", mintV(a[0].T), IntLit(0)), Typ: types.Typ[types.Bool]}, true
 		}
 		natives[p+"String"] = func(x *Exec, st *State, fr *Frame, at ssa.Instruction, a []Val) (Val, bool) {
+			// decimal rendering: injective on the value (nil renders like... a distinct string)
 			x.D.DeclareFun("mint.str", []string{SMInt}, SStr)
-			return Val{T: App(SStr, "mint.str", a[0].T), Typ: types.Typ[types.String]}, true
+			r := x.define(st, "mstr", App(SStr, "mint.str", a[0].T))
+			x.injective1(st, "mint.str", SMInt, SStr, a[0].T, r)
+			return Val{T: r, Typ: types.Typ[types.String]}, true
 		}
 	}
 	pi := pkgMath + "(Int)."
@@ -302,4 +305,86 @@ func nativeSlicesSort(x *Exec, st *State, fr *Frame, at ssa.Instruction, a []Val
 	x.setHeap(st, n, Store(arr, base, newRow))
 	x.lastPerm = perm
 	return Val{T: Term{"unit", SUnit}}, true
+}
+
+// ---------- injective library functions (assumptions T5; used by F7 relational obligations) ----------
+
+// injective1 asserts, for a unary UF application r = f(a), the inverse fact f.inv(r) = a.
+func (x *Exec) injective1(st *State, fn string, argSort, resSort string, a, r Term) {
+	inv := fn + ".inv"
+	x.D.DeclareFun(inv, []string{resSort}, argSort)
+	st.assume(Eq(App(argSort, inv, r), a))
+}
+
+func init() {
+	// fmt.Sprintf / fmt.Sprint with a constant format: an uninterpreted function of the boxed
+	// arguments, assumed injective (no separator characters inside %s arguments; see DESIGN T5).
+	natives["fmt.Sprintf"] = func(x *Exec, st *State, fr *Frame, at ssa.Instruction, a []Val) (Val, bool) {
+		call, ok := at.(*ssa.Call)
+		if !ok || len(call.Call.Args) != 2 {
+			return Val{}, false
+		}
+		fc, ok := call.Call.Args[0].(*ssa.Const)
+		if !ok || fc.Value == nil {
+			return Val{}, false
+		}
+		format := fc.Value.ExactString()
+		va := a[1]
+		n := concreteInt(App(SInt, "s.len", va.T))
+		if va.T.Sort != SSlice || n < 0 || n > 16 {
+			return Val{}, false
+		}
+		name, as := elemArrName(SIface)
+		row := Select(x.heapArr(st, name, as), App(SRef, "s.base", va.T))
+		off := App(SInt, "s.off", va.T)
+		var args []Term
+		var sorts []string
+		for i := 0; i < n; i++ {
+			args = append(args, x.define(st, "fa", Select(row, App(SInt, "+", off, IntLit(int64(i))))))
+			sorts = append(sorts, SIface)
+		}
+		fn := "sprintf_" + shortHash(format)
+		x.D.DeclareFun(fn, sorts, SStr)
+		r := x.define(st, "fmt", App(SStr, fn, args...))
+		for i := range args {
+			inv := fmt.Sprintf("%s.arg%d", fn, i)
+			x.D.DeclareFun(inv, []string{SStr}, SIface)
+			st.assume(Eq(App(SIface, inv, r), args[i]))
+		}
+		x.Trusted["assumed injective: fmt.Sprintf("+format+")"]++
+		v := Val{T: r, Typ: types.Typ[types.String]}
+		x.assumeTyped(st, v)
+		return v, true
+	}
+	natives["github.com/cometbft/cometbft/crypto/tmhash.Sum"] = func(x *Exec, st *State, fr *Frame, at ssa.Instruction, a []Val) (Val, bool) {
+		return x.hashNative(st, "tmhash", a[0], 32)
+	}
+	natives["github.com/ethereum/go-ethereum/crypto.Keccak256"] = func(x *Exec, st *State, fr *Frame, at ssa.Instruction, a []Val) (Val, bool) {
+		// variadic [][]byte: only the single-argument form is modelled
+		va := a[0]
+		if va.T.Sort != SSlice || concreteInt(App(SInt, "s.len", va.T)) != 1 {
+			return Val{}, false
+		}
+		name, as := elemArrName(SSlice)
+		row := Select(x.heapArr(st, name, as), App(SRef, "s.base", va.T))
+		el := Val{T: x.define(st, "kin", Select(row, App(SInt, "s.off", va.T))), Typ: types.NewSlice(types.Typ[types.Byte])}
+		return x.hashNative(st, "keccak256", el, 32)
+	}
+}
+
+// hashNative models a collision-free hash: result bytes = H(input bytes), with an inverse.
+func (x *Exec) hashNative(st *State, name string, in Val, size int64) (Val, bool) {
+	if in.T.Sort != SSlice {
+		return Val{}, false
+	}
+	x.D.DeclareFun(name, []string{SBytes}, SBytes)
+	ib := x.define(st, "hin", x.bytesOf(st, in))
+	h := x.define(st, "hash", App(SBytes, name, ib))
+	x.injective1(st, name, SBytes, SBytes, ib, h)
+	r := x.freshVal(st, name, types.NewSlice(types.Typ[types.Byte]))
+	st.assume(Eq(App(SInt, "s.len", r.T), IntLit(size)))
+	st.assume(Not(Eq(App(SRef, "s.base", r.T), TNull)))
+	st.assume(Eq(x.bytesOf(st, r), h))
+	x.Trusted["assumed collision-free: "+name]++
+	return r, true
 }
